@@ -4,17 +4,24 @@
 MC   : TLC checks AllOrNothing / UntouchedWhileRendering / PooledBuffersAreEmpty / StreamedAsDocumented on
        handler.go transcribed step by step over a net/http ResponseWriter model, for every configuration
        (Status x ContentType x ErrorHandler x Streaming) x every component (k chunks, ok/fail) x sequences of
-       MaxReq requests over one buffer pool. Four negative configs (modelled bugs) must each be rejected.
+       MaxReq requests over one buffer pool. The error-handler kind "nilhandler" (the configured ErrorHandler returns
+       a nil http.Handler, handler.go calls ServeHTTP on it and panics) has the terminal outcome "aborted": nothing of
+       the document and no status line are committed (NoDocumentAfterFailure, AbortedSendsNothing). Five negative
+       configs (modelled bugs, incl. nilFallsThrough: a nil error handler result continues on the success path) must
+       each be rejected.
 GEN  : every terminal state (Finish edge: configuration, component, predicted response) is replayed on the
        real templ.Handler with httptest.ResponseRecorder AND through a real net/http server + client, for
        several chunk-size profiles around the buffer growth points, with a plain func component and with real
-       generated code wrapped around it; status, Content-Type, X-Err and body are compared.
+       generated code wrapped around it; status, Content-Type, X-Err and body are compared. A panic of the handler is
+       recovered in the recorder transport and seen as a transport error / empty reply by the client of the server
+       transport (net/http recovers it, logs it and closes the connection): both are the outcome "aborted".
 """
 import json, os, sys
 sys.path.insert(0, os.path.join(os.path.dirname(os.path.abspath(__file__)), "..", "lib"))
 import vlib
 
-NEGATIVES = ["headersFirst", "noReset", "bufferInErrorPath", "statusInErrorPath"]
+EH_KINDS = ["unset", "statusbody", "bodyonly", "nothing", "headers", "nilhandler"]
+NEGATIVES = ["headersFirst", "noReset", "bufferInErrorPath", "statusInErrorPath", "nilFallsThrough"]
 
 
 def main():
@@ -45,7 +52,7 @@ def main():
     # --- GEN: every terminal state replayed on the real handler ---------------------------------
     gen = vlib.tlc("Handler", "gen.cfg", files={"gen.cfg": cfg("Handler_gen.cfg")}, workers=1, timeout=900)
     edges = gen.tagged("EDGE")
-    nconf = 3 * 2 * 5 * 2 * (maxk + 1) * 2
+    nconf = 3 * 2 * len(EH_KINDS) * 2 * (maxk + 1) * 2
     # per configuration: request 1 on an empty pool, requests 2 and 3 (streamed: pool empty or not; buffered: not empty)
     expected = nconf * 4
     if not gen.ok or len(edges) != expected:
@@ -53,6 +60,11 @@ def main():
     if gen.distinct != mc.distinct:
         raise vlib.InfraError("emission run explored %d states, MC run %d" % (gen.distinct, mc.distinct))
     ck.add_tlc(gen, "Handler_gen (terminal states)")
+    aborted = [e for e in edges if e["outcome"] == "aborted"]
+    if not aborted or any(not (e["cfg"]["fail"] and e["cfg"]["eh"] == "nilhandler" and e["final"]["aborted"]) for e in aborted) \
+            or any(e["final"]["status"] != 0 or e["final"]["body"] for e in aborted if not e["cfg"]["stream"]) \
+            or any(e["final"]["aborted"] != (e["cfg"]["fail"] and e["cfg"]["eh"] == "nilhandler") for e in edges):
+        raise vlib.InfraError("the specification does not predict 'aborted, nothing committed' exactly for failed renders with a nil error handler result")
     partial = [e for e in edges if e["outcome"] == "partial"]
     if not partial or any(not e["cfg"]["stream"] for e in partial):
         raise vlib.InfraError("the specification does not distinguish streamed (partial allowed) from buffered mode")
@@ -87,9 +99,17 @@ def main():
     if s["transports"].get("recorder", 0) < len(edges) or s["transports"].get("server", 0) < len(edges):
         raise vlib.InfraError("a transport was not exercised for every case: %s" % s["transports"])
     need = {"Buffered.Success", "Buffered.DefaultError", "Streamed.Success", "Streamed.DefaultError"} | \
-           {"%s.ErrorHandler.%s" % (m, e) for m in ("Buffered", "Streamed") for e in ("statusbody", "bodyonly", "nothing", "headers")}
+           {"%s.ErrorHandler.%s" % (m, e) for m in ("Buffered", "Streamed") for e in EH_KINDS if e != "unset"}
     if set(s["branches"]) != need:
         raise vlib.InfraError("handler branches exercised: %s" % sorted(s["branches"]))
+    # fail closed: the aborted outcome really was produced by panics of the handler, on both transports
+    n_ab = len(aborted)
+    if s["aborted_runs"] < 2 * n_ab or s["server_aborts"] < n_ab or s["server_panics_logged"] < s["server_aborts"]:
+        if ck._nviol == 0 and not ck.known_hit:
+            raise vlib.InfraError("aborted outcome not exercised as predicted: %d aborted terminal states, %d aborted runs, %d on the server "
+                                  "transport, %d panics logged by net/http" % (n_ab, s["aborted_runs"], s["server_aborts"], s["server_panics_logged"]))
+    ck.set("aborted_requests", {"terminal_states": n_ab, "runs": s["aborted_runs"], "server_transport": s["server_aborts"],
+                                "panics_logged_by_net_http": s["server_panics_logged"]})
     ck.set("terminal_states_replayed", s["cases"])
     ck.set("real_requests", s["runs"])
     ck.set("requests_by_transport", s["transports"])
@@ -98,13 +118,15 @@ def main():
     ck.set("branches", s["branches"])
     ck.set("traces_validated_against_impl", s["cases"])
     ck.set("exhaustive", True)
-    ck.set("bounds", {"MaxK": maxk, "MaxReq": 3, "status": [0, 201, 404], "content_type": 2, "error_handler": 5,
+    ck.set("bounds", {"MaxK": maxk, "MaxReq": 3, "status": [0, 201, 404], "content_type": 2, "error_handler": len(EH_KINDS),
                       "streaming": 2, "chunk_size_profiles": 4, "rounds": rounds})
-    ck.set("rule", "every Status{unset,201,404} x ContentType{default,custom} x ErrorHandler{unset,status+body,body only,nothing,headers} "
+    ck.set("rule", "every Status{unset,201,404} x ContentType{default,custom} x ErrorHandler{unset,status+body,body only,nothing,headers,returns nil handler} "
                    "x Streaming x component(k<=MaxK chunks, ok/fail) x request index 1..3 x pool state; each replayed with 4 chunk-size "
                    "profiles through ResponseRecorder and a real net/http server+client, in emitted order and in seeded shuffled orders "
                    "(request sequences over the real buffer pool)")
     ck.assume("net/http ResponseWriter rules as modelled: first Write implies 200, header map frozen at WriteHeader, http.Error sets text/plain and 500")
+    ck.assume("a panic of ServeHTTP is a terminal outcome: net/http recovers it, logs it and closes the connection without finishing the "
+              "response (observed through the real server transport); in buffered mode nothing has been committed at that point")
     ck.assume("the component writes directly to the io.Writer it is given (func component); real generated code around it is exercised in buffered mode")
     ck.assume("streamed mode is specified as documented (partial output allowed); a streamed mismatch is model drift, not a violation of C11")
     ck.finish()
